@@ -58,9 +58,17 @@ func inferContracts(fn *ssa.Function) Contracts {
 		// Propagate nilnessTables from predecessors. Union every predecessor's nilnessTableSet
 		// into this block's nilnessTableSet.
 
+		// The phi instructions of this block.
+		var phis []*ssa.Phi
+		for _, instr := range b.Instrs {
+			if phi, ok := instr.(*ssa.Phi); ok {
+				phis = append(phis, phi)
+			}
+		}
+
 		// Map each predecessor to the nilnessTables propagated from it.
 		nilnessTablesUnderPred := make(map[*ssa.BasicBlock]nilnessTableSet)
-		for _, pred := range b.Preds {
+		for predIdx, pred := range b.Preds {
 			var nilnessTableSetOfPred nilnessTableSet
 			if !seen[pred.Index] {
 				// Skip any predecessor that has not been visited yet.
@@ -83,44 +91,39 @@ func inferContracts(fn *ssa.Function) Contracts {
 					continue
 				}
 				nTable.addAll(lTable)
-				nilnessTableSetUnderThisPred, _ = add(nilnessTableSetUnderThisPred, nTable)
-			}
-			nilnessTablesUnderPred[pred] = nilnessTableSetUnderThisPred
-		}
 
-		// Transfer nilness inside the block
-		for _, instr := range b.Instrs {
-			switch instr := instr.(type) {
-			case *ssa.Phi:
-				for i, cand := range instr.Edges {
-					pred := b.Preds[i]
-					if _, ok := nilnessTablesUnderPred[pred]; !ok {
-						// There is no table set up for this predecessor because the predecessor is
-						// skipped in the previous for loop, since it is not visited yet. We skip
-						// it here as well.
-						continue
+				// Transfer nilness inside the block. The phi values are (re)defined when the block is
+				// entered from this predecessor. They are assigned in parallel, so the nilness of all
+				// their operands on this edge is read before any of them is updated: an operand may
+				// itself be a phi of this block, and then stands for the value it had before.
+				phiNilness := make([]nilness, len(phis))
+				for j, phi := range phis {
+					phiNilness[j] = nTable.nilnessOf(phi.Edges[predIdx])
+				}
+				// Every instruction of the block is about to be executed (again, if the block is in a
+				// loop): whatever the table knows about its value was learned for the value of an
+				// earlier execution and is stale.
+				for _, instr := range b.Instrs {
+					if v, ok := instr.(ssa.Value); ok {
+						delete(nTable, v)
 					}
-					for _, table := range nilnessTablesUnderPred[pred] {
-						candNil := table.nilnessOf(cand)
-						// The phi value is (re)defined when the block is entered from this
-						// predecessor: whatever the table knows about it was learned for the value
-						// it had before (e.g., in the previous iteration of a loop) and is stale.
-						delete(table, instr)
-						if candNil == unknown {
-							// Do not save the nilness if it is unknown. There are two cases:
-							// 1. the phi value cannot have nil as a valid value, e.g. it is an
-							// int.
-							// 2. the phi value can have nil as a valid value, but we do not know
-							// the nilness of the value.
-							continue
-						}
+				}
+				for j, phi := range phis {
+					// Do not save the nilness if it is unknown. There are two cases:
+					// 1. the phi value cannot have nil as a valid value, e.g. it is an int.
+					// 2. the phi value can have nil as a valid value, but we do not know the nilness
+					// of the value.
+					if phiNilness[j] != unknown {
 						// Append the nilness of the phi value and the related values' nilness
 						// expanded from the nilness of the phi value.
-						table.expandNilness(instr, candNil)
+						nTable.expandNilness(phi, phiNilness[j])
 					}
 				}
 				// TODO: function call, field addr, store, etc.
+
+				nilnessTableSetUnderThisPred, _ = add(nilnessTableSetUnderThisPred, nTable)
 			}
+			nilnessTablesUnderPred[pred] = nilnessTableSetUnderThisPred
 		}
 
 		// Update nilnessTableSetByBB for this block.
